@@ -274,6 +274,16 @@ func alphabet(which string) []*op {
 		add("ExecFrozen", A, "", E, 0, 1, L-1, L)
 		add("ExecActive", A, "", E, 0, 1, L-1, L)
 		add("ExecFrozen", E, "", E, 1)
+		// the executor's own address in the place of the user (it is an account like any other)
+		add("ExecDepositFrozen", E, "", E, 1)
+		add("ExecDeposit", E, "", E, 1)
+		add("ExecWithdraw", E, "", E, 1)
+		add("ExecActive", E, "", E, 1)
+		add("ExecTransfer", A, E, E, 1)
+		add("ExecTransfer", E, A, E, 1)
+		add("ExecTransferFrozen", A, E, E, 1)
+		add("TransferToExec", E, "", E, 1)
+		add("TransferWithdraw", E, "", E, 1)
 		add("ExecTransfer", A, B, E, 0, 1, L-1, L)
 		add("ExecTransfer", B, A, E, 1)
 		add("ExecTransfer", A, A, E, 1)
